@@ -70,7 +70,7 @@ var muxSrc = map[string]*net.UDPAddr{ //nolint:gochecknoglobals
 	"X":  {IP: net.ParseIP("192.0.2.1").To4(), Port: 5000},
 	"Xm": {IP: net.ParseIP("::ffff:192.0.2.1"), Port: 5000}, // the same host in IPv4-mapped form
 	"Y":  {IP: net.ParseIP("192.0.2.2").To4(), Port: 5000},
-	"Z":  {IP: net.ParseIP("2001:db8::9"), Port: 5000},
+	"Z":  {IP: net.ParseIP("fe80::9"), Port: 5000, Zone: "eth0"}, // IPv6 link-local: the zone is part of the address
 }
 
 var muxCanon = map[string]string{"X": "X", "Xm": "X", "Y": "Y", "Z": "Z"} //nolint:gochecknoglobals
@@ -332,7 +332,7 @@ func (mm *muxModel) Apply(ev string) {
 			g = ref.reg[u+"/"+muxFamily(src)]
 		}
 		if g != 0 {
-			want := net.UDPAddr{IP: from.IP, Port: from.Port}
+			want := net.UDPAddr{IP: from.IP, Port: from.Port, Zone: from.Zone}
 			ref.q[g] = append(ref.q[g], fmt.Sprintf("%x@%v", payload, &want))
 		}
 	case "remove":
